@@ -1,7 +1,10 @@
 //go:build verif
 
-// Contracts for package coder (UDP/DTLS framing; checked by /verif/govc; comment-only, compiled only with -tags verif).
+// Contracts for package coder (UDP/DTLS framing; checked by /verif/govc; compiled only with -tags verif).
+// The ghost function at the end composes the Encode and Decode contracts into the round-trip theorem.
 package coder
+
+import "github.com/plgd-dev/go-coap/v3/message"
 
 // ---- RFC 7252 section 3 datagram layout --------------------------------------------------------
 //
@@ -31,6 +34,9 @@ package coder
 //@   ensures [token] err == nil ==> bytesEqOld(buf[4 : 4 + len(m.Token)], m.Token)
 //@   ensures [values-unchanged] forall j int :: {m.Options[j].ID} 0 <= j && j < len(m.Options) ==> bytesEqOld(m.Options[j].Value, m.Options[j].Value)
 //@   ensures [options] err == nil ==> optsAt(buf[4 + len(m.Token) : ], m.Options)
+//@   ensures [token-now] err == nil ==> bytesEq(buf[4 : 4 + len(m.Token)], m.Token)
+//@   ensures [options-now] err == nil ==> optsAtNow(buf[4 + len(m.Token) : ], m.Options)
+//@   ensures [payload-now] err == nil && len(m.Payload) > 0 ==> bytesEq(buf[n - len(m.Payload) : n], m.Payload)
 //@   ensures [payload] err == nil && len(m.Payload) > 0 ==> buf[n - len(m.Payload) - 1] == 255 && bytesEqOld(buf[n - len(m.Payload) : n], m.Payload)
 //
 // ---- datagram decoding against the reference parser -------------------------------------------
@@ -45,5 +51,67 @@ package coder
 //@   ensures [n] (err == nil ==> n == len(data)) && (err != nil ==> n == -1)
 //@   ensures [accepts] err == nil ==> udpHdrOK(data) && exists K int :: {rawStart(udpOpts(data), K)} parsedOK(udpOpts(data), K) && decodedOpts(m.Options, len(old(m.Options)), udpOpts(data), message.CoapOptionDefs, K) && m.Payload == ite(consumedBy(udpOpts(data), K) < len(udpOpts(data)), udpOpts(data)[consumedBy(udpOpts(data), K) : ], nil)
 //@   ensures [rejects] err != nil && !errors.Is(err, message.ErrOptionsTooSmall) && udpHdrOK(data) ==> exists K int :: {rawStart(udpOpts(data), K)} prefixOK(udpOpts(data), K) && !terminal(udpOpts(data), rawStart(udpOpts(data), K)) && !rawOK(udpOpts(data), K)
+//@   ensures [too-small] errors.Is(err, message.ErrOptionsTooSmall) ==> udpHdrOK(data) && exists K int :: {rawStart(udpOpts(data), K)} prefixOK(udpOpts(data), K) && rawOK(udpOpts(data), K) && cap(old(m.Options)) == len(old(m.Options)) + nKept(udpOpts(data), message.CoapOptionDefs, K)
 //@   ensures [fields] err == nil ==> m.Type == (data[0] / 16) % 4 && m.Code == data[1] && m.MessageID == 256*data[2] + data[3] && m.Token == ite(data[0] % 16 == 0, nil, data[4 : 4 + data[0] % 16])
 //@   ensures [unchanged-on-error] err != nil ==> m.Payload == old(m.Payload) && m.Code == old(m.Code) && m.Token == old(m.Token) && m.Type == old(m.Type) && m.MessageID == old(m.MessageID)
+//
+// ---- C01: decode(encode(m)) == m for every well-formed message (datagram framing) --------------
+//
+// wfMsg is the property's precondition list. The theorem is the contract of the ghost function
+// below, which really calls Encode and then Decode; it is proved from their contracts and the
+// parse-of-encoding lemma (message.VerifParseOfEncoding).
+//
+//@ spec wfMsg(m message.Message) bool = wfUDP(m) && m.Code <= 255 && wfOptions(m.Options) && legalOpts(m.Options, message.CoapOptionDefs)
+//
+// isEnc: data is the datagram encoding of m (layout predicates in the current state).
+//@ spec isEnc(data []byte, m message.Message) bool = len(data) == udpSize(m) && data[0] % 16 == len(m.Token) && data[0] / 64 == 1 && 0 <= encLen(m.Options, len(m.Options)) && data[0] == 64 + 16*m.Type + len(m.Token) && data[1] == m.Code && data[2] == m.MessageID / 256 && data[3] == m.MessageID % 256 && bytesEq(data[4 : 4 + len(m.Token)], m.Token) && optsAtNow(data[4 + len(m.Token) : ], m.Options) && (len(m.Payload) > 0 ==> data[len(data) - len(m.Payload) - 1] == 255 && bytesEq(data[len(data) - len(m.Payload) : ], m.Payload))
+//
+// Step 1: decoding an encoding gives the message back.
+//
+//@ func VerifDecodeEncoded(data []byte, m message.Message, out *message.Message) (n2 int, e2 error)
+//@   requires wfMsg(m) && isEnc(data, m)
+//@   requires out != nil && len(out.Options) == 0 && cap(out.Options) >= len(m.Options)
+//@   requires disjoint(m.Options, out.Options[0 : cap(out.Options)])
+//@   modifies out.Options, out.Options[0 : cap(out.Options)], out.Payload, out.Code, out.Token, out.Type, out.MessageID
+//@   ensures [decodes] e2 == nil && n2 == len(data)
+//@   ensures [fields] out.Code == m.Code && out.Type == m.Type && out.MessageID == m.MessageID
+//@   ensures [token] len(out.Token) == len(m.Token) && bytesEq(out.Token, m.Token)
+//@   ensures [payload] len(out.Payload) == len(m.Payload) && bytesEq(out.Payload, m.Payload)
+//@   ensures [opt-count] len(out.Options) == len(m.Options)
+//@   ensures [opt-ids] forall j int :: {out.Options[j].ID} 0 <= j && j < len(m.Options) ==> rawStart(udpOpts(data), j) == old(encLen(m.Options, j)) && rawStart(udpOpts(data), j + 1) == old(encLen(m.Options, j + 1)) && out.Options[j].ID == old(m.Options[j].ID)
+//@   ensures [opt-slices] forall j int :: {out.Options[j].ID} 0 <= j && j < len(m.Options) ==> rawStart(udpOpts(data), j) == old(encLen(m.Options, j)) && out.Options[j].Value == udpOpts(data)[old(encLen(m.Options, j) + 1 + hs(delta(m.Options, j)) + hs(len(m.Options[j].Value))) : old(encLen(m.Options, j) + optSize(m.Options, j))]
+//@   ensures [opt-values] forall j int :: {out.Options[j].ID} 0 <= j && j < len(m.Options) ==> rawStart(udpOpts(data), j) == old(encLen(m.Options, j)) && bytesEq(out.Options[j].Value, old(m.Options[j].Value))
+
+// VerifDecodeEncoded is a ghost function (see the contract above).
+func VerifDecodeEncoded(data []byte, m message.Message, out *message.Message) (n2 int, e2 error) {
+	message.VerifParseOfEncoding(data[4+len(m.Token):], m.Options, message.CoapOptionDefs)
+	n2, e2 = DefaultCoder.Decode(data, out)
+	return
+}
+
+// Step 2: Encode produces an encoding; composed with step 1 this is the round-trip theorem.
+// All comparisons are against the message as it was on entry.
+//
+//@ func VerifRoundTrip(m message.Message, buf []byte, out *message.Message) (n int, e1 error, n2 int, e2 error)
+//@   requires wfMsg(m) && srcDisjoint(buf, m) && len(buf) >= udpSize(m)
+//@   requires out != nil && len(out.Options) == 0 && cap(out.Options) >= len(m.Options)
+//@   requires disjoint(m.Options, out.Options[0 : cap(out.Options)])
+//@   modifies buf[0 : len(buf)], out.Options, out.Options[0 : cap(out.Options)], out.Payload, out.Code, out.Token, out.Type, out.MessageID
+//@   ensures [encodes] e1 == nil && n == old(udpSize(m))
+//@   ensures [decodes] e2 == nil && n2 == n
+//@   ensures [fields] out.Code == m.Code && out.Type == m.Type && out.MessageID == m.MessageID
+//@   ensures [token] len(out.Token) == len(m.Token) && bytesEqOld(out.Token, m.Token)
+//@   ensures [payload] len(out.Payload) == len(m.Payload) && bytesEqOld(out.Payload, m.Payload)
+//@   ensures [opt-count] len(out.Options) == len(m.Options)
+//@   ensures [opt-ids] forall j int :: {out.Options[j].ID} 0 <= j && j < len(m.Options) ==> out.Options[j].ID == old(m.Options[j].ID)
+//@   ensures [opt-values] forall j int :: {out.Options[j].ID} 0 <= j && j < len(m.Options) ==> out.Options[j].ID == old(m.Options[j].ID) && bytesEqOld(out.Options[j].Value, old(m.Options[j].Value))
+
+// VerifRoundTrip is a ghost function: its contract is the round-trip theorem of C01 for the datagram coder.
+func VerifRoundTrip(m message.Message, buf []byte, out *message.Message) (n int, e1 error, n2 int, e2 error) {
+	n, e1 = DefaultCoder.Encode(m, buf)
+	if e1 != nil {
+		return
+	}
+	n2, e2 = VerifDecodeEncoded(buf[:n], m, out)
+	return
+}
